@@ -90,7 +90,9 @@ theorem lexItems_ends (f : Nat) (rest : Bytes) (pos depth : Nat) (hf : rest.leng
       · split
         · -- // comment
           split
-          · exact ⟨_, rfl, ends_single _ (Or.inr rfl)⟩
+          · -- ending with the text
+            obtain ⟨l, h1, h2⟩ := ih [] (pos + 2 + (r.drop 1).length) depth (by simp; omega)
+            exact ⟨l, h1, h2⟩
           · rename_i i _
             obtain ⟨l, h1, h2⟩ := ih (r.drop (1 + i + 1)) (pos + 2 + i + 1) depth (by simp; omega)
             exact ⟨l, h1, h2⟩
